@@ -4,7 +4,7 @@ import numpy as np
 import common as C
 import gen
 import impl
-from props.c02 import hquad, expected_structure
+from props.c02 import hquad, expected_structure, fit_delta, iface_theta
 from props.c05 import rosette
 
 RULE = ("equilibrium tissues: Voronoi diagrams (tension = site distance) and their Moebius images, rotated / translated / scaled, 0..16 "
@@ -13,8 +13,9 @@ RULE = ("equilibrium tissues: Voronoi diagrams (tension = site distance) and the
         "non-trivial = at least 6 inferred interfaces; distinct = (tissue, method, fit, ne)")
 TRUSTED = ["theorems equilibrium_solves_augmented and zero_residual_minimiser_unique (Proofs/CertProofs.v) compose with C02 (rows are "
            "outward unit tangents) and C05 (the reported vector is a non-negative least-squares minimiser)",
-           "circle-fit accuracy and solver tolerances are oracles: tolerance 5e-3 for straight interfaces with >= 3 points, 2e-3 for "
-           "arcs (dlite), 1e-6 for two-point interfaces / taubinSVD arcs, x10 for method='lsq'"]
+           "circle-fit accuracy is an oracle bounded per coefficient (c02.fit_delta: 1e-4 / 1e-6 on arcs turning >= 0.04 rad, 5e-3 + 0.6 x turning on "
+           "flatter or straight interfaces with >= 3 points, 1e-9 for two-point interfaces); the tolerance on the tensions is derived from the measured tangent error E by the perturbation bound "
+           "2 |E T| / sigma_min(augmented matrix) plus the solver termination tolerance (1e-9; 1e-4 for lsq / lsq_linear)"]
 ASSUMPTIONS = ["Maxwell reciprocity: a Voronoi diagram balances under tension = site distance; Moebius maps preserve the angles at junctions"]
 TESTED_NOT_PROVED = ["the end-to-end recovery is evaluated on every generated tissue; the composition of C02/C05 with the two algebraic theorems is not mechanised"]
 IMPORTS = "From Forsys Require Import Model.CaseUtil.\n"
@@ -71,6 +72,9 @@ def check_case(res, spec, method, fit, ne, label):
             fr = impl.fframes.Frame(0, v, e, c, time=0.0)
             f = impl.forsys_of({0: fr})
             f.build_force_matrix(when=0, circle_fit_method=fit, angle_limit=np.inf)
+            Mhat = np.array(f.force_matrices[0].matrix, dtype=float).copy()
+            cols_used = [list(e) for e in f.force_matrices[0].big_edges_to_use]
+            rows_used = dict(f.force_matrices[0].map_vid_to_row)
             # the default call (negatives allowed) and the explicit non-negative one are both in the quantifier
             kw = {"allow_negatives": False} if (len(spec["vertices"]) + (ne or 0)) % 2 else {}
             if method:
@@ -85,48 +89,82 @@ def check_case(res, spec, method, fit, ne, label):
     T = T / T.mean()
     got = np.array([be.tension for be in internal])
     straight = spec["meta"].get("mobius") is None
-    npts = [len(be.vertices) for be in internal]
-    if all(n == 2 for n in npts):
-        tol = 1e-6
-    elif straight:
-        tol = 5e-3
-    else:
-        tol = 2e-3 if fit == "dlite" else 1e-5
-        if min(npts) == 2:
-            tol = max(tol, 1e-6)
-        if ne is not None and ne <= 2:
-            tol = max(tol, 1e-4)
-    if method in ("lsq", "lsq_linear"):
-        tol = max(10 * tol, 1e-4)        # termination tolerances of lmfit / scipy.optimize.lsq_linear
     err = float(np.max(np.abs(got - T)))
-    # D1 detection on the mesh actually solved (resampling changes the first segment of an interface)
-    byends = {}
+    # ---- the numerical tolerance is derived, not chosen: with Mhat = M + E (E = error of the fitted tangents, a black box) and
+    # x* = (T, 0) an exact solution of the analytic system, any minimiser xhat of |Ahat x - b| over a set containing x* satisfies
+    # |Ahat (xhat - x*)| <= 2 |E T|, hence |xhat - x*| <= 2 |E T| / sigma_min(Ahat).  E itself is bounded per entry by the
+    # circle-fit accuracy that C02 also uses (delta below); a larger E is a failure of its own.
+    byends, dup_ends = {}, False
     for it in spec["ifaces"]:
-        byends[(it["pts"][0], it["pts"][-1])] = (it["tan0"], it["tan1"])
-        byends[(it["pts"][-1], it["pts"][0])] = (it["tan1"], it["tan0"])
-    nd1 = 0
-    for be in internal:
-        ids = be.get_vertices_ids()
-        tt = byends.get((ids[0], ids[-1]))
-        if tt is None or len(ids) < 3:
-            continue
-        for t, a, b in ((tt[0], be.vertices[0], be.vertices[1]), (tt[1], be.vertices[-1], be.vertices[-2])):
-            if not hquad(t, (b.x - a.x, b.y - a.y)):
-                nd1 += 1
+        th_ = iface_theta(it)
+        for key, val in (((it["pts"][0], it["pts"][-1]), (it["tan0"], it["tan1"], th_)), ((it["pts"][-1], it["pts"][0]), (it["tan1"], it["tan0"], th_))):
+            if key in byends and it["pts"][0] != it["pts"][-1]:
+                dup_ends = True
+            byends[key] = val
+    pos_now = {vv.id: (vv.x, vv.y) for vv in fr.vertices.values()}
+    Tcol = {}
+    for be, tk in zip(internal, T):
+        Tcol[tuple(be.get_vertices_ids())] = tk
+        Tcol[tuple(be.get_vertices_ids()[::-1])] = tk
+    Ma = np.zeros_like(Mhat)
+    nd1, worst_E, bad_tangent, mirrored = 0, 0.0, None, []
+    usable = (not dup_ends) and Mhat.shape == (2 * len(rows_used), len(cols_used)) and all(tuple(cq) in Tcol for cq in cols_used)
+    if usable:
+        for j, ids in enumerate(cols_used):
+            tt = byends.get((ids[0], ids[-1]))
+            if tt is None:
+                usable = False
+                break
+            for t, q in ((tt[0], ids), (tt[1], ids[::-1])):
+                v0 = q[0]
+                if v0 not in rows_used:
+                    continue
+                r = rows_used[v0]
+                d = (pos_now[q[1]][0] - pos_now[v0][0], pos_now[q[1]][1] - pos_now[v0][1])
+                if len(ids) == 2:
+                    t = (d[0] / math.hypot(*d), d[1] / math.hypot(*d))      # two points define a line
+                Ma[r, j], Ma[r + 1, j] = t[0], t[1]
+                e_ = max(abs(Mhat[r, j] - t[0]), abs(Mhat[r + 1, j] - t[1]))
+                delta = max(1e-9, fit_delta(fit, len(ids), tt[2], straight))
+                if len(ids) >= 3 and not hquad(t, d):
+                    nd1 += 1
+                    if e_ > delta:
+                        mirrored.append((v0, ids[0], ids[-1], (Mhat[r, j], Mhat[r + 1, j]), tuple(t)))
+                elif e_ > delta and bad_tangent is None:
+                    bad_tangent = f"junction {v0}, interface {ids[0]}..{ids[-1]} ({len(ids)} pts): coefficient pair {(Mhat[r, j], Mhat[r + 1, j])} but tangent {tuple(t)}"
+                else:
+                    worst_E = max(worst_E, e_)
+    tol_solver = 1e-4 if method in ("lsq", "lsq_linear") else 1e-9     # termination tolerances of lmfit / scipy.optimize.lsq_linear
+    if usable:
+        Tv = np.array([Tcol[tuple(cq)] for cq in cols_used])
+        A_aug = np.vstack([np.hstack([Mhat, np.ones((Mhat.shape[0], 1))]), np.hstack([np.ones(Mhat.shape[1]), [0.0]])])
+        smin = float(np.linalg.svd(A_aug, compute_uv=False)[-1])
+        bound = 2 * float(np.linalg.norm((Mhat - Ma) @ Tv)) / smin if smin > 0 else float("inf")
+        tol = tol_solver + 1.01 * bound
+    else:
+        tol = tol_solver
+        bound = None
     res.case((tuple(tuple(x[1:]) for x in spec["vertices"][:5]), len(spec["cells"]), method, fit, ne), nontrivial=len(internal) >= 6)
     res.count(f"method={method or 'default'}")
     res.count(f"fit={fit}")
     res.count("resampled" if ne else "raw")
     res.count("D1-affected tissue" if nd1 else "H_quad holds everywhere")
     res.extra["worst_error_judged"] = max(res.extra.get("worst_error_judged", 0.0), err if (not nd1 and err <= tol) else 0.0)
-    res.sample({"label": label, "method": method, "fit": fit, "ne": ne, "interfaces": len(internal), "max_error": err, "tolerance": tol, "d1_ends": nd1})
+    res.sample({"label": label, "method": method, "fit": fit, "ne": ne, "interfaces": len(internal), "max_error": err, "tolerance": tol,
+                "perturbation_bound": bound, "worst_tangent_error": worst_E, "d1_ends": nd1})
+    if not usable:
+        res.count("tolerance not derivable (two interfaces with the same ends): not judged")
+        return
+    if bad_tangent:
+        res.fail("oracle", bad_tangent + " (beyond the circle-fit accuracy)", replay)
+    if mirrored:
+        m = mirrored[0]
+        res.fail("oracle", f"{len(mirrored)} coefficient pair(s) mirrored in an axis (tangent and first segment in different quadrants), e.g. junction {m[0]}, "
+                 f"interface {m[1]}..{m[2]}: {m[3]} for tangent {m[4]}; reported tensions off by {err:.3g}", replay, tag="D1-tangent-sign-forcing")
     if err > tol:
         k = int(np.argmax(np.abs(got - T)))
-        msg = f"interface between cells {internal[k].own_cells}: reported {got[k]:.6f}, true tension / mean {T[k]:.6f} (max error {err:.3g}, tolerance {tol:.1g})"
-        if nd1 and (ne is None or True):
-            res.fail("oracle", msg + f"; {nd1} interface end(s) have tangent and first segment in different quadrants", replay, tag="D1-tangent-sign-forcing")
-        else:
-            res.fail("oracle", msg, replay)
+        res.fail("oracle", f"interface between cells {internal[k].own_cells}: reported {got[k]:.6f}, true tension / mean {T[k]:.6f} "
+                 f"(max error {err:.3g}, derived tolerance {tol:.2g})", replay)
 
 
 def tissues(rng, tier):
